@@ -258,7 +258,7 @@ impl Scenario for C14 {
         }
     }
     fn rule(&self) -> String {
-        "each run: all 128 presence patterns of RegisteredClaims with random Unicode strings (quotes, backslashes, NUL, control characters, astral code points) and timestamps across jiff's range at ns resolution are encoded; the wire form is read by a generic JSON parser and an independent RFC 3339 reader (object, one member per present claim, exact strings, exact instants) and decoded back (equality); foreign issuers send JSON objects with extra, nested, reordered, null, wrongly typed and duplicated members, \\u escapes and timestamps in other RFC 3339 spellings (offsets): whenever decoding succeeds every registered claim equals the generic reading; Json<Value> payload/footer bytes equal serde_json's; the same claims also travel as real tokens between nodes in C01/C11. distinct = (case kind, presence pattern / outcome)".into()
+        "each run: all 128 presence patterns of RegisteredClaims with random Unicode strings (quotes, backslashes, NUL, control characters, astral code points) and timestamps across jiff's range at ns resolution are encoded; the wire form is read by a generic JSON parser and an independent RFC 3339 reader (object, one member per present claim, exact strings, exact instants) and decoded back (equality); foreign issuers send JSON objects with extra, nested, reordered, null, wrongly typed and duplicated members, unknown members whose names are near misses of the registered names (these objects must decode), \\u escapes and timestamps in other RFC 3339 spellings (offsets): whenever decoding succeeds every registered claim equals the generic reading; Json<Value> payload/footer bytes equal serde_json's; the same claims also travel as real tokens between nodes in C01/C11. distinct = (case kind, presence pattern / outcome)".into()
     }
     fn plan(&self, seed: u64, run: u64, _tier: Tier) -> Plan {
         let mut b = Builder::new("C14", seed, run, vec![Bk::V4]);
@@ -327,10 +327,57 @@ impl Scenario for C14 {
             }
             let ws = if b.rng.bool() { " " } else { "" };
             let json = format!("{{{ws}{}{ws}}}", members.join(&format!(",{ws}")));
-            b.push(Step::Codec { case: CodecCase::RegForeign { json } });
+            b.push(Step::Codec { case: CodecCase::RegForeign { json, must_accept: false } });
+        }
+        // benign foreign objects: well-formed registered members (any subset) plus unknown members whose
+        // names are near misses of the registered ones (prefixes, extensions, case, padding, escapes): the
+        // unknown ones must be ignored, the registered ones read exactly
+        const NEAR: [&str; 30] = [
+            "issuer", "iss ", " iss", "Iss", "ISS", "is", "i", "", "iss\\u0000", "isss", "subscription", "subject", "su", "sub_", "audience", "aud2", "au", "expires_in", "expiry", "exp_", "ex", "EXP", "nbf_", "nb", "not_before", "iat0", "ia", "jti-", "jtis", "jt",
+        ];
+        for _ in 0..60 {
+            let mut members: Vec<String> = Vec::new();
+            for name in ["iss", "sub", "aud", "jti"] {
+                if b.rng.bool() {
+                    let s = rand_string(&mut b);
+                    let lit = json_string_lit(&mut b, &s);
+                    members.push(format!("\"{name}\":{lit}"));
+                }
+            }
+            for name in ["exp", "nbf", "iat"] {
+                if b.rng.bool() {
+                    let t = b.timestamp();
+                    let s = jiff::Timestamp::from_nanosecond(t.0).map(|x| x.to_string()).unwrap_or_else(|_| "1970-01-01T00:00:00Z".into());
+                    members.push(format!("\"{name}\":\"{s}\""));
+                }
+            }
+            let mut used = std::collections::BTreeSet::new();
+            for _ in 0..1 + b.rng.below(5) {
+                let n = *b.rng.pick(&NEAR);
+                if !used.insert(n) {
+                    continue;
+                }
+                let v = match b.rng.below(5) {
+                    0 => "null".to_string(),
+                    1 => b.rng.below(100_000).to_string(),
+                    2 => "\"2026-01-01T00:00:00Z\"".to_string(),
+                    3 => b.json_value(2).to_string(),
+                    _ => {
+                        let s = rand_string(&mut b);
+                        json_string_lit(&mut b, &s)
+                    }
+                };
+                members.push(format!("\"{n}\":{v}"));
+            }
+            for i in (1..members.len()).rev() {
+                let j = b.rng.usize_below(i + 1);
+                members.swap(i, j);
+            }
+            let json = format!("{{{}}}", members.join(","));
+            b.push(Step::Codec { case: CodecCase::RegForeign { json, must_accept: true } });
         }
         for bad in ["[]", "null", "\"iss\"", "{", "{\"iss\":\"a\"", "", "{\"iss\":\"a\"} x", "{\"exp\":\"2026-01-01T00:00:00\"}", "{\"exp\":\"2026-13-01T00:00:00Z\"}"] {
-            b.push(Step::Codec { case: CodecCase::RegForeign { json: bad.to_string() } });
+            b.push(Step::Codec { case: CodecCase::RegForeign { json: bad.to_string(), must_accept: false } });
         }
         for _ in 0..30 {
             let value = b.json_value(3);
